@@ -122,7 +122,8 @@ void xmpp_send_error(xmpp_conn_t *conn, xmpp_error_type_t type, char *text)
 {
     xmpp_stanza_t *error = xmpp_error_new(conn->ctx, type, text);
 
-    send_stanza(conn, error, XMPP_QUEUE_STROPHE);
+    /* a stream error is not a stanza: XEP-0198 must neither count nor retain it */
+    send_stanza(conn, error, XMPP_QUEUE_SM_STROPHE);
 }
 
 /** Create a new Strophe connection object.
